@@ -157,18 +157,16 @@ class World:
         return best
 
     # -- settings ------------------------------------------------------
-    @contextmanager
-    def configured(self, roots: List[Dict[str, Any]], dup_first: bool = False):
-        """Point BASE_DIR / COMPONENTS / STATICFILES_DIRS at the roots, the way root.id says."""
-        from django.conf import settings
-        old = (settings.BASE_DIR, settings.COMPONENTS, settings.STATICFILES_DIRS)
+    def settings_for(self, roots: List[Dict[str, Any]], dup_first: bool = False) -> Dict[str, Any]:
+        """BASE_DIR / COMPONENTS / STATICFILES_DIRS that configure the roots the way root.id says."""
         comp: Dict[str, Any] = {"autodiscover": False}
         dirs: List[Any] = []
         static: List[Any] = []
         app_dirs = set()
         use_default = False
         bracket = any(r["globmeta"] for r in roots)
-        for r, d in zip(roots, self.active):
+        for r in roots:
+            d = self.root_dir(r)
             rid = r["id"]
             if r["kind"] == "app":
                 app_dirs.add(r["prefix"][-1])
@@ -193,9 +191,15 @@ class World:
             comp["app_dirs"] = sorted(app_dirs)
         elif not app_dirs:
             comp["app_dirs"] = [] if not (static or use_default) and len(roots) % 2 == 0 else ["components"]
-        settings.BASE_DIR = self.projb if bracket else self.proj
-        settings.COMPONENTS = comp
-        settings.STATICFILES_DIRS = static
+        return {"BASE_DIR": self.projb if bracket else self.proj, "COMPONENTS": comp, "STATICFILES_DIRS": static}
+
+    @contextmanager
+    def configured(self, roots: List[Dict[str, Any]], dup_first: bool = False):
+        from django.conf import settings
+        old = (settings.BASE_DIR, settings.COMPONENTS, settings.STATICFILES_DIRS)
+        st = self.settings_for(roots, dup_first)
+        settings.BASE_DIR, settings.COMPONENTS, settings.STATICFILES_DIRS = \
+            st["BASE_DIR"], st["COMPONENTS"], st["STATICFILES_DIRS"]
         try:
             yield
         finally:
@@ -340,6 +344,103 @@ def model_check_and_replay(chk: Check, world: World, max_entries: int, small: Li
             break
 
 
+# ---------------------------------------------------------------- real start-up (subprocess)
+_STARTUP = r"""
+import json, os, sys
+from pathlib import Path
+spec = json.load(open(sys.argv[1]))
+sys.dont_write_bytecode = True
+sys.path[:0] = spec["syspath"]
+def dec(x):
+    if isinstance(x, dict):
+        return Path(x["path"]) if "path" in x else tuple(dec(v) for v in x["tuple"])
+    if isinstance(x, list):
+        return [dec(v) for v in x]
+    return x
+import django
+from django.conf import settings
+comp = {k: dec(v) for k, v in spec["COMPONENTS"].items()}
+comp["autodiscover"] = True
+settings.configure(BASE_DIR=dec(spec["BASE_DIR"]), SECRET_KEY="x", INSTALLED_APPS=spec["apps"], COMPONENTS=comp,
+                   STATICFILES_DIRS=dec(spec["STATICFILES_DIRS"]), DATABASES={}, USE_TZ=True,
+                   TEMPLATES=[{"BACKEND": "django.template.backends.django.DjangoTemplates", "DIRS": [],
+                               "OPTIONS": {"builtins": ["django_components.templatetags.component_tags"]}}])
+try:
+    django.setup()                      # AppConfig.ready() -> autodiscover()
+    out = {"error": None}
+except BaseException as e:
+    out = {"error": type(e).__name__ + ": " + str(e)[:200]}
+pre = spec["S"] + os.sep
+mods = []
+for name, m in sorted(sys.modules.items()):
+    f = getattr(m, "__file__", None)
+    if f and os.path.realpath(f).startswith(pre) and name not in spec["ignore"]:
+        mods.append([name, os.path.realpath(f)])
+out["modules"] = mods
+print("VFSTARTUP " + json.dumps(out))
+"""
+
+
+def _enc(x: Any) -> Any:
+    if isinstance(x, Path):
+        return {"path": str(x)}
+    if isinstance(x, tuple):
+        return {"tuple": [_enc(v) for v in x]}
+    if isinstance(x, list):
+        return [_enc(v) for v in x]
+    return x
+
+
+def startup_probe(chk: Check, world: World, row: Dict[str, Any], script: Path) -> None:
+    """A fresh interpreter, COMPONENTS.autodiscover=True: after django.setup() exactly the files the
+    specification selects for ".py" must have been imported, each under its dotted path."""
+    import subprocess
+    roots = [row["root"]]
+    world.reset(roots)
+    for e in row["entries"]:
+        world.mk(1, e["kind"], e["parts"])
+    st = world.settings_for(roots)
+    spec = {"syspath": world.paths, "S": str(world.S), "apps": ["django_components"] + [n for n, _ in APPS],
+            "ignore": ["genapp", "genapp.apps", "pk", "pk.napp", "pk.napp.apps", "extapp", "extapp.apps"],
+            "BASE_DIR": _enc(st["BASE_DIR"]), "COMPONENTS": {k: _enc(v) for k, v in st["COMPONENTS"].items()},
+            "STATICFILES_DIRS": _enc(st["STATICFILES_DIRS"])}
+    sp = script.with_suffix(".json")
+    sp.write_text(json.dumps(spec))
+    env = dict(os.environ, PYTHONHASHSEED="0", PYTHONDONTWRITEBYTECODE="1")
+    p = subprocess.run([sys.executable, str(script), str(sp)], capture_output=True, text=True, timeout=120, env=env)
+    line = [l for l in p.stdout.splitlines() if l.startswith("VFSTARTUP ")]
+    if not line:
+        raise MachineryError(f"start-up subprocess produced no result:\n{p.stdout[-500:]}\n{p.stderr[-1500:]}")
+    out = json.loads(line[-1][len("VFSTARTUP "):])
+    got = sorted((n, world.locate(f)[0], tuple(world.locate(f)[1])) for n, f in out["modules"])
+    want = sorted((r["dot"], 1, tuple(r["parts"])) for r in row["exp"])
+    chk.add("startup_subprocess_cases")
+    chk.count(["startup", row["root"]["id"], row["entries"]])
+    # packages executed on the way (an __init__.py of a parent directory) are themselves selected files,
+    # so the imported set must be exactly the selected set
+    if out["error"] or got != want:
+        chk.violation({"kind": "startup", "row": row},
+                      {"stage": "django.setup() with autodiscover=True", "error": out["error"],
+                       "expected_modules": want, "imported_modules": got})
+
+
+def startup_checks(chk: Check, world: World, n: int) -> None:
+    """Sample n exported cases in which the specification says autodiscover() is determined."""
+    rows = [r for rows, _, _ in _exports.values() for r in rows
+            if r["auto"] and r["sfx"] == ".py" and r["exp"]]
+    rnd = random.Random(chk.seed * 31 + 2020)
+    by_variant: Dict[str, List[Any]] = {}
+    for r in rows:
+        by_variant.setdefault(r["root"]["id"], []).append(r)
+    script = workdir("c20su") / "startup.py"
+    script.write_text(_STARTUP)
+    picked = []
+    for vid in sorted(by_variant):
+        picked += rnd.sample(by_variant[vid], min(len(by_variant[vid]), max(1, n // max(1, len(by_variant)))))
+    for r in picked:
+        startup_probe(chk, world, r, script)
+
+
 # ---------------------------------------------------------------- code -> spec: random sessions
 ROOT_POOL = [
     {"id": "dirs-str", "kind": "dirs", "prefix": ["comps"], "globmeta": False},
@@ -408,6 +509,8 @@ def record_session(rnd: random.Random, tid: int, world: World) -> Dict[str, Any]
                        for p in occ if p != parts and len(p) == len(parts)):
                     continue
                 if name.rsplit(".", 1)[0] in dirs_pool or name in dirs_pool:
+                    continue
+                if name == "__init__.pyc":       # a sourceless package: its (junk) byte code would be executed
                     continue
             return kind, parts
         return None
@@ -518,6 +621,7 @@ def core(chk: Check, world: World, tier: str) -> None:
     quick = tier == "quick"
     model_check_and_replay(chk, world, max_entries=2 if quick else 3,
                            small=SMALL_QUICK if quick else SMALL_THOROUGH)
+    startup_checks(chk, world, 8 if quick else 80)
     validate_sessions(chk, world, 200 if quick else 2000)
 
 
@@ -649,9 +753,14 @@ def selftest(tier: str) -> int:
 
     world = World()
     try:
+        light = [d * 100 + n for d in (1, 2, 4, 5, 6, 7, 8) for n in range(1, N_FILES + 1)] + \
+                [10000 + d * 100 + n for d in (1, 2) for n in range(1, N_DIRNAMES + 1)]
+
         def body(chk: Check) -> None:
-            model_check_and_replay(chk, world, max_entries=2, small=SMALL_QUICK, sfx=[1, 2])
-            validate_sessions(chk, world, 80)
+            model_check_and_replay(chk, world, max_entries=2, small=[101, 203, 205, 117, 10101], sfx=[1, 2],
+                                   codes=light)
+            startup_checks(chk, world, 8)
+            validate_sessions(chk, world, 60)
 
         rc = run_probes(PID, probes, body)
 
